@@ -39,10 +39,10 @@ pub struct Stats {
 }
 
 // rule -> properties
-const P_DUP: &[&str] = &["C01", "C12", "C06", "C18", "C08"];
+const P_DUP: &[&str] = &["C01", "C12", "C06", "C18", "C08", "C10"];
 const P_LOSS: &[&str] = &["C01", "C12"];
 const P_IDX: &[&str] = &["C02", "C12", "C06"];
-const P_VALUE: &[&str] = &["C02", "C01", "C16"];
+const P_VALUE: &[&str] = &["C02", "C01", "C16", "C10", "C19"];
 const P_BEYOND: &[&str] = &["C01", "C05", "C02", "C03"];
 const P_ADDR: &[&str] = &["C19", "C02"];
 const P_CHUNK: &[&str] = &["C03"];
@@ -506,7 +506,7 @@ fn req_of(_h: &Hist, _r: &Rec) -> u64 {
     u64::MAX
 }
 
-const OP_IS_PULL: [bool; 12] = [true, true, true, true, true, true, true, true, true, false, false, false];
+const OP_IS_PULL: [bool; 13] = [true, true, true, true, true, true, true, true, true, false, false, false, true];
 
 fn seq_remainder(h: &Hist, rem: &[Ident], count: &[u32], max_end: u64, any_skip: bool, clean: bool, out: &mut Vec<Violation>) {
     let info = h.info;
